@@ -53,7 +53,7 @@ LEAVES = [
     ('mul', 'Linear', 'f64', 'Linear', 'free'), ('mul', 'Linear', 'Linear', 'Quadratic', 'mulll'),
     ('mul', 'Quadratic', 'f64', 'Quadratic', 'free'), ('mul', 'Quadratic', 'Linear', 'Polynomial', 'map'), ('mul', 'Quadratic', 'Quadratic', 'Polynomial', 'map'),
     ('mul', 'Polynomial', 'f64', 'Polynomial', 'free'), ('mul', 'Polynomial', 'Linear', 'Polynomial', 'map'), ('mul', 'Polynomial', 'Quadratic', 'Polynomial', 'map'),
-    ('mul', 'Polynomial', 'Polynomial', 'Polynomial', 'map'),
+    ('mul', 'Polynomial', 'Polynomial', 'Polynomial', 'pmul'),
 ]
 
 
@@ -87,7 +87,7 @@ def spec_impl(op, a, b, c, req='true'):
 def leaf_spec_text():
     out = ['// ---- leaf remainders: 0 for map-free code, uninterpreted for the assumed BTreeMap-merge leaves ----\n']
     for op, a, b, c, kind in LEAVES:
-        sig = 'pub %s spec fn %s(x: v1::%s, y: %s, m: Map<u64, F64>) -> real' % ('open' if kind in ('free', 'merge', 'deleg', 'merge2', 'mulll', 'pmerge') else 'uninterp', rem_name(op, a, b), a, 'F64' if b == 'f64' else 'v1::' + b)
+        sig = 'pub %s spec fn %s(x: v1::%s, y: %s, m: Map<u64, F64>) -> real' % ('open' if kind in ('free', 'merge', 'deleg', 'merge2', 'mulll', 'pmerge', 'pmul') else 'uninterp', rem_name(op, a, b), a, 'F64' if b == 'f64' else 'v1::' + b)
         if kind == 'merge2':
             assert (op, a, b) == ('add', 'Quadratic', 'Quadratic')
             out.append('pub open spec fn rem_add_quadratic_quadratic(x: v1::Quadratic, y: v1::Quadratic, m: Map<u64, F64>) -> real {\n'
@@ -100,6 +100,12 @@ def leaf_spec_text():
             assert (op, a, b) == ('add', 'Polynomial', 'Polynomial')
             out.append('pub open spec fn rem_add_polynomial_polynomial(x: v1::Polynomial, y: v1::Polynomial, m: Map<u64, F64>) -> real {\n'
                        '    polynomial_val(x, m) + polynomial_val(y, m) - ksum(kacc(pitems(x.terms@ + y.terms@), (x.terms.len() + y.terms.len()) as int, true, Map::empty()), pw(m))\n}\n')
+            continue
+        if kind == 'pmul':
+            # verified leaf: the loops of Polynomial * Polynomial build the EXACT product under canonical (sorted) keys; the final collect drops the entries with |v| <= EPSILON
+            assert (op, a, b) == ('mul', 'Polynomial', 'Polynomial')
+            out.append('pub open spec fn rem_mul_polynomial_polynomial(x: v1::Polynomial, y: v1::Polynomial, m: Map<u64, F64>) -> real {\n'
+                       '    let g = pmat(x.terms@, y.terms@, x.terms.len() as int); ksum(g, pw(m)) - ksum(kdrop(g), pw(m))\n}\n')
             continue
         if kind == 'mulll':
             # verified leaf: the quadratic part of Linear * Linear is exact; the linear part is (x * r) + (c * y) - r * c, whose only inexact step is that one Linear + Linear
@@ -992,3 +998,220 @@ fn add(self, rhs: Self) -> (r: Polynomial)
                 proofs=[(('before', r'let __h1 = chain_refs'), 'let ghost ch = self.terms@ + rhs.terms@;\n        '),
                         (('before', r'Self \{\s*terms: __t'), final_proof)],
                 post_subs=[('terms: vmap_into_monomials(terms),', 'terms: __t,')])
+
+
+# ---------------------------------------------------------------- Polynomial * Polynomial: SortedIds, the term iterator of &Polynomial, the epsilon-dropping collect, the product loops
+def sorted_ids_type():
+    src = core.load('sorted_ids.rs')
+    if not re.search(r'pub struct SortedIds\(Vec<u64>\);', src):
+        raise core.LostAnchor('newtype SortedIds changed')
+    return ('pub struct SortedIds(pub Vec<u64>);\n'
+            'impl Clone for SortedIds { #[verifier::external_body] fn clone(&self) -> (r: Self) ensures r == *self { unimplemented!() } }\n'
+            '// the hand-written Ord of SortedIds (graded lexicographic) is only used as the key order of BTreeMap<SortedIds, f64>, which R28 replaces by the model SMap\n'
+            'impl PartialEq for SortedIds { #[verifier::external_body] fn eq(&self, o: &Self) -> bool { unimplemented!() } }\nimpl Eq for SortedIds {}\n'
+            'impl PartialOrd for SortedIds { #[verifier::external_body] fn partial_cmp(&self, o: &Self) -> Option<core::cmp::Ordering> { unimplemented!() } }\n'
+            'impl Ord for SortedIds { #[verifier::external_body] fn cmp(&self, o: &Self) -> core::cmp::Ordering { unimplemented!() } }\n')
+
+
+def smap_model():
+    """R28 for BTreeMap<SortedIds, f64>: the VMap model with the key type SortedIds (same text, generated)"""
+    t = open(core.os.path.join(core.VERIF, 'vx', 'prelude', 'vmap_model.rs')).read()
+    t = t.split('\n', 4)[4]      # drop the header comment (it describes VMap)
+    t = t.replace('VMap', 'SMap').replace('VEntry', 'SEntry').replace('ventry_', 'sentry_').replace('Vec<u64>', 'SortedIds').replace('key@', 'key.0@')
+    return '// ===== generated from prelude/vmap_model.rs: the same model for BTreeMap<SortedIds, f64> (keys compared by the content of the id list) =====\n' + t
+
+
+PMUL_STUBS = '''// slice::sort_unstable (T4): the same elements in non-decreasing order
+#[verifier::external_body] pub fn vec_sort_unstable(v: &mut Vec<u64>)
+    ensures sorted_seq(final(v)@), perm(final(v)@, old(v)@)
+{ unimplemented!() }
+// Vec::extend(other) (T4)
+#[verifier::external_body] pub fn vec_extend_u64(v: &mut Vec<u64>, other: Vec<u64>)
+    ensures final(v)@ == old(v)@ + other@
+{ unimplemented!() }
+// BTreeMap<SortedIds, f64>::into_iter().map(|(ids, coefficient)| Monomial { ids: ids.into_inner(), coefficient }).collect(): one monomial per entry
+#[verifier::external_body]
+pub fn smap_into_monomials(m: SMap) -> (r: Vec<Monomial>)
+    ensures r.len() == m@.len(),
+        forall|i: int| 0 <= i < r.len() ==> m@.contains_key((#[trigger] r[i]).ids@) && m@[r[i].ids@] == r[i].coefficient,
+        forall|i: int, j: int| 0 <= i < j < r.len() ==> (#[trigger] r[i]).ids@ != (#[trigger] r[j]).ids@,
+        forall|k: Seq<u64>| #[trigger] m@.contains_key(k) ==> exists|i: int| 0 <= i < r.len() && (#[trigger] r[i]).ids@ == k,
+{ unimplemented!() }
+// BTreeMap<SortedIds, f64>::into_iter() collected: one (key, value) pair per entry
+#[verifier::external_body]
+pub fn smap_into_vec(m: SMap) -> (r: Vec<(SortedIds, F64)>)
+    ensures r.len() == m@.len(),
+        forall|i: int| 0 <= i < r.len() ==> m@.contains_key((#[trigger] r[i]).0.0@) && m@[r[i].0.0@] == r[i].1,
+        forall|i: int, j: int| 0 <= i < j < r.len() ==> (#[trigger] r[i]).0.0@ != (#[trigger] r[j]).0.0@,
+        forall|k: Seq<u64>| #[trigger] m@.contains_key(k) ==> exists|i: int| 0 <= i < r.len() && (#[trigger] r[i]).0.0@ == k,
+{ unimplemented!() }
+'''
+
+
+def sorted_ids_units():
+    S = 'sorted_ids.rs'
+    new = Unit('SortedIds::new', S, 'new', impl=r'impl SortedIds \{', sig='pub fn new(ids: Vec<u64>) -> Self', anyhow=False, wrap=('impl SortedIds {', '}'),
+               header='pub fn new(ids: Vec<u64>) -> (r: Self)\n        ensures sorted_seq(r.0@), perm(r.0@, ids@), r.0@ == skey(ids@),',
+               rsubs=[(r'ids\.sort_unstable\(\);', 'vec_sort_unstable(&mut ids);', 1)],
+               proofs=[(('before', r'Self\(ids\)\s*\}\s*$'), 'proof { lemma_skey(ids@, __ids0); }\n        '),
+                       (('after', r'let mut ids = ids;'), ' let ghost __ids0 = ids@;')])
+    inner = Unit('SortedIds::into_inner', S, 'into_inner', impl=r'impl SortedIds \{', sig='pub fn into_inner(self) -> Vec<u64>', anyhow=False, wrap=('impl SortedIds {', '}'),
+                 header='pub fn into_inner(self) -> (r: Vec<u64>)\n        ensures r == self.0,')
+    add = Unit('Add for SortedIds', S, 'add', impl=r'impl Add for SortedIds \{', sig='fn add(self, other: Self) -> Self::Output', anyhow=False,
+               pre='impl AddSpecImpl<SortedIds> for SortedIds { open spec fn obeys_add_spec() -> bool { false } open spec fn add_req(self, rhs: SortedIds) -> bool { true } open spec fn add_spec(self, rhs: SortedIds) -> SortedIds { arbitrary() } }\n',
+               wrap=('impl core::ops::Add for SortedIds { type Output = SortedIds;', '}'),
+               header='fn add(self, other: Self) -> (r: SortedIds)\n        ensures sorted_seq(r.0@), perm(r.0@, self.0@ + other.0@), r.0@ == skey(self.0@ + other.0@),',
+               rsubs=[(r'ids\.extend\(other\.0\);', 'vec_extend_u64(&mut ids, other.0);', 1), (r'ids\.sort_unstable\(\);', 'vec_sort_unstable(&mut ids);', 1)],
+               proofs=[(('before', r'Self\(ids\)\s*\}\s*$'), 'proof { lemma_skey(ids@, self.0@ + other.0@); }\n        ')])
+    return [new, inner, add]
+
+
+def polynomial_terms():
+    return Unit('IntoIterator for &Polynomial', 'polynomial.rs', 'into_iter', impl=r"impl<'a> IntoIterator for &'a Polynomial \{", sig='fn into_iter(self) -> Self::IntoIter', anyhow=False,
+                wrap=('impl Polynomial {', '}'),
+                header='''pub fn into_iter(&self) -> (r: Vec<(SortedIds, F64)>)
+        // R22: the boxed iterator is instantiated at Vec.  One (sorted ids, coefficient) pair per monomial, in order
+        ensures tlist_ok(r@, self.terms@),''',
+                rsubs=[(r'(?s)Box::new\(\s*self\.terms\.iter\(\)\.map\((.*)\),?\s*\)\s*\}\s*$', r'let __r = vec_map_collect(vec_refs(&self.terms), \1); __r }', 1)],
+                closures=[dict(params='term', typed='term: &Monomial', ret='(SortedIds, F64)',
+                               ensures='ret.1 == term.coefficient && ret.0.0@ == skey(term.ids@) && sorted_seq(ret.0.0@) && perm(ret.0.0@, term.ids@)')])
+
+
+def polynomial_from_iter():
+    final_proof = '''let ghost n = iter.len() as int; let ghost am = kacc(its, n, true, Map::empty());
+        let __t = smap_into_monomials(terms);   // R20c
+        proof {
+            let pt = pitems(__t@);
+            if kfin(its) {
+                assert(am.dom() =~= tm.dom());
+                assert(klists(pt, __t.len() as int, am)) by {
+                    assert forall|i: int| 0 <= i < __t.len() implies am.contains_key((#[trigger] pt[i]).0) && pt[i].1@ == XR::Fin(am[pt[i].0]) by { assert(tm.contains_key(__t[i].ids@)); }
+                    assert forall|i: int, j: int| 0 <= i < j < __t.len() implies (#[trigger] pt[i]).0 != (#[trigger] pt[j]).0 by { assert(__t[i].ids@ != __t[j].ids@); }
+                }
+                assert forall|i: int| 0 <= i < __t.len() implies fin((#[trigger] __t@[i]).coefficient) by { assert(tm.contains_key(__t[i].ids@)); }
+                assert forall|m: Map<u64, F64>| poly_sum(__t@, __t.len() as int, m) == ksum(am, pw(m)) by { lemma_pitems_sum(__t@, __t.len() as int, m); lemma_klist_sum(pt, __t.len() as int, am, pw(m)); }
+            }
+            assert forall|j: int| 0 <= j < __t.len() implies exists|i: int| 0 <= i < iter.len() && (#[trigger] iter[i]).0.0@ == (#[trigger] __t[j]).ids@ by { assert(tm.contains_key(__t[j].ids@)); }
+        }
+        '''
+    return Unit('FromIterator<(SortedIds, f64)> for Polynomial', 'polynomial.rs', 'from_iter', impl=r'impl FromIterator<\(SortedIds, f64\)> for Polynomial \{',
+                sig='fn from_iter<I: IntoIterator<Item = (SortedIds, f64)>>(iter: I) -> Self', anyhow=False, wrap=('impl Polynomial {', '}'),
+                header='''#[verifier::loop_isolation(false)]
+pub fn from_iter(iter: Vec<(SortedIds, F64)>) -> (r: Polynomial)
+        // R22: the IntoIterator parameter is instantiated at Vec.  The monomials of the result list, one per key, the epsilon-dropping merge of the given (ids, coefficient) items
+        ensures
+            kfin(sitems(iter@)) ==> poly_fin(r.terms@) && forall|m: Map<u64, F64>| #![trigger polynomial_val(r, m)] polynomial_val(r, m) == ksum(kacc(sitems(iter@), iter.len() as int, true, Map::empty()), pw(m)),
+            forall|j: int| 0 <= j < r.terms.len() ==> exists|i: int| 0 <= i < iter.len() && (#[trigger] iter[i]).0.0@ == (#[trigger] r.terms[j]).ids@,''',
+                rsubs=[(r'let mut terms = BTreeMap::new\(\);', 'let mut terms: SMap = SMap::new();', 1),      # R28
+                       (r'(?s)terms\.into_iter\(\)\.map\(\|\(ids, coefficient\)\| Monomial \{\s*ids: ids\.into_inner\(\),\s*coefficient,?\s*\}\)\.collect\(\)', 'smap_into_monomials(terms)', 1)],
+                loops=[dict(kind='for', it='it_1', rebind='(__e.0.vclone(), __e.1)',
+                            body_proof=' proof { assert(*__e == iter[it_1.index@ as int]); assert(its[it_1.index@ as int] == (ids.0@, coefficient)); }',
+                            inv='''invariant
+                its == sitems(iter@), __h1@ == iter@,
+                kfin(its) ==> kmatches(terms@, kacc(its, it_1.index@ as int, true, Map::empty())),
+                forall|k: Seq<u64>| #[trigger] terms@.contains_key(k) ==> exists|i: int| 0 <= i < it_1.index@ && (#[trigger] iter[i]).0.0@ == k,''')],
+                proofs=[(('before', r'let __h1 = iter;'), 'let ghost its = sitems(iter@);\n        '),
+                        (('before', r'Self \{\s*terms: __t'), 'let ghost tm = terms@;\n        ' + final_proof)],
+                post_subs=[('terms: smap_into_monomials(terms),', 'terms: __t,')])
+
+
+def polynomial_mul_polynomial():
+    FIN = 'poly_fin(self.terms@) && poly_fin(rhs.terms@)'
+    final_proof = '''proof {
+            let si = sitems(lv); let n = lv.len() as int;
+            assert(gm == pmat(a, b, a.len() as int));
+            if %s {
+                assert(gm.dom() =~= tm.dom());
+                assert(klists(si, n, gm)) by {
+                    assert forall|i: int| 0 <= i < n implies gm.contains_key((#[trigger] si[i]).0) && si[i].1@ == XR::Fin(gm[si[i].0]) by { assert(tm.contains_key(lv[i].0.0@)); }
+                    assert forall|i: int, j: int| 0 <= i < j < n implies (#[trigger] si[i]).0 != (#[trigger] si[j]).0 by { assert(lv[i].0.0@ != lv[j].0.0@); }
+                }
+                assert(kfin(si)) by { assert forall|i: int| 0 <= i < n implies fin((#[trigger] si[i]).1) by { assert(tm.contains_key(lv[i].0.0@)); } }
+                lemma_kacc_listing(si, n, gm);
+                assert forall|m: Map<u64, F64>| #![trigger polynomial_val(__r, m)] polynomial_val(__r, m) == polynomial_val(self, m) * polynomial_val(rhs, m) - rem_mul_polynomial_polynomial(self, rhs, m) by {
+                    assert(ksum(gm, pw(m)) == poly_sum(a, a.len() as int, m) * poly_sum(b, b.len() as int, m)); }
+                assert forall|m: Map<u64, F64>| #![trigger polynomial_val(__r, m)] polynomial_val(__r, m) == polynomial_val(rhs, m) * polynomial_val(self, m) - rem_mul_polynomial_polynomial(self, rhs, m) by {
+                    assert(polynomial_val(self, m) * polynomial_val(rhs, m) == polynomial_val(rhs, m) * polynomial_val(self, m)) by(nonlinear_arith); }
+            }
+            assert forall|k: u64| polynomial_ids(__r).contains(k) implies idset.contains(k) by {
+                lemma_poly_ids_mem(__r.terms@, __r.terms.len() as int, k);
+                let j = choose|j: int| 0 <= j < __r.terms.len() && #[trigger] mono_ids(__r.terms@[j].ids@, __r.terms@[j].ids.len() as int).contains(k);
+                lemma_mono_ids_mem(__r.terms@[j].ids@, __r.terms@[j].ids.len() as int, k);
+                let q = choose|q: int| 0 <= q < __r.terms@[j].ids.len() && __r.terms@[j].ids@[q] == k;
+                let i = choose|i: int| 0 <= i < lv.len() && (#[trigger] lv[i]).0.0@ == (#[trigger] __r.terms[j]).ids@;
+                assert(tm.contains_key(lv[i].0.0@));
+                assert(lv[i].0.0@[q] == k);
+            }
+        }
+        ''' % FIN
+    return Unit('Mul for Polynomial', 'polynomial.rs', 'mul', impl=r'impl Mul for Polynomial \{', sig='fn mul(self, rhs: Self) -> Self', anyhow=False,
+                pre=spec_impl('mul', 'Polynomial', 'Polynomial', 'Polynomial'), wrap=('impl core::ops::Mul for Polynomial { type Output = Polynomial;', '}'),
+                header='''#[verifier::loop_isolation(false)]
+fn mul(self, rhs: Self) -> (r: Polynomial)
+        // the two loops build the EXACT product of the two monomial lists under canonical (sorted) id lists - nothing is dropped there -; the final collect drops the entries with
+        // |v| <= EPSILON, which is the remainder
+        ensures ''' + contract('mul', 'Polynomial', 'Polynomial', 'Polynomial'),
+                rsubs=[(r'let mut terms = BTreeMap::new\(\);', 'let mut terms: SMap = SMap::new();', 1),      # R28
+                       # R20c: the product is bound by a `let` in front of the statement that uses it
+                       (r'\*terms\.entry\(ids\)\.or_default\(\) \+= value_l \* value_r;', 'let __p = value_l * value_r; let ghost key = ids.0@; *terms.entry(ids).or_default() += __p;', 1),
+                       (r'terms\.into_iter\(\)\.collect\(\)\s*\}\s*$', 'let __v = smap_into_vec(terms); let ghost lv = __v@; let __r = Polynomial::from_iter(__v); __r }', 1)],
+                loops=[dict(kind='for', it='it_1', rebind='(__e.0.vclone(), __e.1)',
+                            body_proof=' proof { assert(*__e == la[it_1.index@ as int]); }',
+                            inv='''invariant
+                a == self.terms@, b == rhs.terms@, la == __h1@, tlist_ok(la, a),
+                forall|key: Seq<u64>| #[trigger] terms@.contains_key(key) ==> forall|q: int| 0 <= q < key.len() ==> idset.contains(#[trigger] key[q]),
+                gm == pmat(a, b, it_1.index@ as int),
+                %s ==> kmatches(terms@, gm) && forall|x: Map<u64, F64>| #![trigger ksum(gm, pw(x))] ksum(gm, pw(x)) == poly_sum(a, it_1.index@ as int, x) * poly_sum(b, b.len() as int, x),''' % FIN),
+                       dict(kind='for', it='it_2', rebind='(__e.0.vclone(), __e.1)',
+                            body_proof=' proof { assert(*__e == __h2[it_2.index@ as int]); }',
+                            inv='''invariant
+                    0 <= it_1.index@ < a.len(), tlist_ok(__h2@, b), id_l.0@ == la[it_1.index@ as int].0.0@, value_l == la[it_1.index@ as int].1,
+                    forall|key: Seq<u64>| #[trigger] terms@.contains_key(key) ==> forall|q: int| 0 <= q < key.len() ==> idset.contains(#[trigger] key[q]),
+                    gm == prow(pmat(a, b, it_1.index@ as int), a[it_1.index@ as int], b, it_2.index@ as int),
+                    %s ==> kmatches(terms@, gm) && forall|x: Map<u64, F64>| #![trigger ksum(gm, pw(x))] ksum(gm, pw(x)) ==
+                        poly_sum(a, it_1.index@ as int, x) * poly_sum(b, b.len() as int, x)
+                        + mono_val(rv(a[it_1.index@ as int].coefficient), a[it_1.index@ as int].ids@, a[it_1.index@ as int].ids.len() as int, x) * poly_sum(b, it_2.index@ as int, x),''' % FIN)],
+                proofs=[(('after', r'let mut terms: SMap = SMap::new\(\);'), '''
+        let ghost a = self.terms@; let ghost b = rhs.terms@; let ghost idset = polynomial_ids(self).union(polynomial_ids(rhs));
+        let ghost mut gm: Map<Seq<u64>, real> = Map::empty();
+        proof { assert forall|x: Map<u64, F64>| #![trigger ksum(gm, pw(x))] ksum(gm, pw(x)) == 0real * poly_sum(b, b.len() as int, x) by { lemma_ksum_empty::<Seq<u64>>(pw(x)); assert(0real * poly_sum(b, b.len() as int, x) == 0real) by(nonlinear_arith); } }'''),
+                        (('after', r'let __h1 = self\.into_iter\(\);'), ' let ghost la = __h1@;'),
+                        (('after', r'\+= __p;'), '''
+                proof {
+                    let i = it_1.index@ as int; let j = it_2.index@ as int; let ai = a[i]; let bj = b[j];
+                    assert(id_r.0@ == skey(bj.ids@) && id_l.0@ == skey(ai.ids@));
+                    assert(key == skey(skey(bj.ids@) + skey(ai.ids@)));
+                    // ids of the key come from the two monomials
+                    assert forall|q: int| 0 <= q < key.len() implies idset.contains(#[trigger] key[q]) by {
+                        let k = key[q]; assert(key.contains(k));
+                        lemma_perm_mem(key, id_r.0@ + id_l.0@, k);
+                        let w = choose|w: int| 0 <= w < (id_r.0@ + id_l.0@).len() && (id_r.0@ + id_l.0@)[w] == k;
+                        if w < id_r.0@.len() { assert(id_r.0@.contains(k)); lemma_perm_mem(id_r.0@, bj.ids@, k); lemma_mono_ids_mem(bj.ids@, bj.ids.len() as int, k); lemma_poly_ids_mem(b, b.len() as int, k);
+                            assert(mono_ids(b[j].ids@, b[j].ids.len() as int).contains(k)); }
+                        else { assert(id_l.0@[w - id_r.0@.len()] == k); assert(id_l.0@.contains(k)); lemma_perm_mem(id_l.0@, ai.ids@, k); lemma_mono_ids_mem(ai.ids@, ai.ids.len() as int, k); lemma_poly_ids_mem(a, a.len() as int, k);
+                            assert(mono_ids(a[i].ids@, a[i].ids.len() as int).contains(k)); }
+                    }
+                    let c = rv(ai.coefficient) * rv(bj.coefficient); let g0 = gm;
+                    gm = kbump(gm, key, c);
+                    if %s {
+                        assert forall|x: Map<u64, F64>| #![trigger ksum(gm, pw(x))] ksum(gm, pw(x)) ==
+                            poly_sum(a, i, x) * poly_sum(b, b.len() as int, x) + mono_val(rv(ai.coefficient), ai.ids@, ai.ids.len() as int, x) * poly_sum(b, j + 1, x) by {
+                            lemma_ksum_kbump(g0, pw(x), key, c);
+                            let wa = mono_val(1real, ai.ids@, ai.ids.len() as int, x); let wb = mono_val(1real, bj.ids@, bj.ids.len() as int, x);
+                            lemma_mono_perm(1real, key, id_r.0@ + id_l.0@, x);
+                            lemma_mono_concat(id_r.0@, id_l.0@, id_l.0@.len() as int, x);
+                            lemma_mono_perm(1real, id_r.0@, bj.ids@, x); lemma_mono_perm(1real, id_l.0@, ai.ids@, x);
+                            assert(pw(x)(key) == wb * wa);
+                            lemma_mono_unit(rv(ai.coefficient), ai.ids@, ai.ids.len() as int, x); lemma_mono_unit(rv(bj.coefficient), bj.ids@, bj.ids.len() as int, x);
+                            lemma_prod_step(poly_sum(a, i, x) * poly_sum(b, b.len() as int, x), rv(ai.coefficient), wa, poly_sum(b, j, x), rv(bj.coefficient), wb);
+                        }
+                    }
+                }''' % FIN),
+                        # end of the outer body: the row is complete
+                        (('before', r'\}\s*let __v = smap_into_vec'), '''proof { if %s {
+                let i = it_1.index@ as int;
+                assert forall|x: Map<u64, F64>| #![trigger ksum(gm, pw(x))] ksum(gm, pw(x)) == poly_sum(a, i + 1, x) * poly_sum(b, b.len() as int, x) by {
+                    lemma_prod_row(poly_sum(a, i, x), mono_val(rv(a[i].coefficient), a[i].ids@, a[i].ids.len() as int, x), poly_sum(b, b.len() as int, x)); } } }
+        ''' % FIN),
+                        (('before', r'let __v = smap_into_vec'), 'let ghost tm = terms@;\n        '),
+                        (('before', r'__r\s*\}\s*$'), final_proof)])
